@@ -260,6 +260,19 @@ theorem trxcon_accepts_emitted (t : Trx) (c : PhyCmd) (hv : ValidCmd c) (e : Emi
     omega
   exact trxcon_accepts_rsp t e.msg q e.verb _ results s hq rfl hh hs1 hs2 hl hst hps
 
+/-- **A reply to another command is not taken for the pending one**: if the verb of
+`RSP <v> <tail>\0` is not a prefix of what follows `CMD ` in the pending command (`strncmp` over
+the length of the reply's verb), the interface is terminated with `-EIO` whatever the
+criticality — e.g. `RSP POWEROFF 0` or `RSP POWEROX 0` for `CMD POWERON`. -/
+theorem trxcon_rejects_mismatch (t : Trx) (tcm : CtrlMsg) (q : List CtrlMsg) (v tail : List Nat)
+    (hq : t.queue = tcm :: q) (hv : ∀ c ∈ v, c ≠ 32 ∧ c ≠ 0) (htail : ∀ c ∈ tail, c ≠ 0)
+    (hnp : v ≠ (cmdStrAt tcm 4).take v.length)
+    (hlen : (str "RSP " ++ v ++ [32] ++ tail ++ [0]).length ≤ trxcBufSize - 1) :
+    cReadCb t (str "RSP " ++ v ++ [32] ++ tail ++ [0]) =
+      .ok (-eIO, { t with ev := t.ev ++ [Event.timerDel, Event.term termError], elog := true }) := by
+  rw [cReadCb_mismatch t tcm q v tail hq hv htail hnp hlen]
+  simp [rspError]
+
 /-- **MEASURE**: the reply `RSP MEASURE 0 <kHz> <dBm>\0` to `CMD MEASURE <kHz>` for an ARFCN of the
 GSM bands hands exactly (ARFCN, dBm) to `trxcon_phyif_handle_rsp` (`sscanf("%u %d")` at `buf + 14`,
 `/ 100`, `gsm_freq102arfcn`). -/
@@ -346,6 +359,8 @@ example : outcome (cReadCb (tWait [⟨str "CMD POWERON", 1, 7⟩]) (str "RSP POW
 example : outcome (cReadCb (tWait [⟨str "CMD POWERON", 1, 7⟩]) (str "RSP POWERON x" ++ [0])) = some (-5, 1, true, none) := by
   decide +kernel
 example : outcome (cReadCb (tWait [⟨str "CMD POWERON", 1, 7⟩]) (str "RSP POWERON 0" ++ [0])) = some (0, 0, false, none) := by
+  decide +kernel
+example : outcome (cReadCb (tWait [⟨str "CMD POWERON", 1, 7⟩]) (str "RSP POWEROX 0" ++ [0])) = some (-5, 1, true, none) := by
   decide +kernel
 example : outcome (cReadCb (tWait [⟨str "CMD SETTA 3", 0, 5⟩]) (str "RSP SETTA 1 3" ++ [0])) = some (0, 0, true, none) := by
   decide +kernel
